@@ -44,3 +44,7 @@ impl Analyzer
 		x
 	}
 }
+
+/// Verification hooks (see mutability.rs).
+#[cfg(feature = "verif")]
+pub use mutability::verif_hooks as verif_mutability_hooks;
